@@ -148,6 +148,20 @@ func (w *World) Dial(ctx context.Context) (*quic.Conn, error) {
 	return w.ClientTr.Dial(ctx, ServerAddr, w.ClientTLSConf.Clone(), cc.Clone())
 }
 
+// DialName dials like Dial, with the given TLS server name (the certificate also covers c0.test ... c15.test).
+func (w *World) DialName(ctx context.Context, name string) (*quic.Conn, error) {
+	cc := w.Opt.ClientConf
+	if cc == nil {
+		cc = &quic.Config{}
+	}
+	tc := w.ClientTLSConf.Clone()
+	tc.ServerName = name
+	if w.ClientUTr != nil {
+		return w.ClientUTr.Dial(ctx, ServerAddr, tc, cc.Clone())
+	}
+	return w.ClientTr.Dial(ctx, ServerAddr, tc, cc.Clone())
+}
+
 // DialEarly dials with 0-RTT enabled.
 func (w *World) DialEarly(ctx context.Context) (*quic.Conn, error) {
 	cc := w.Opt.ClientConf
